@@ -390,7 +390,7 @@ func (t *Tree) removeTip(tip *Node) error {
 		}
 
 		if length1 != NIL_LENGTH || length2 != NIL_LENGTH {
-			e.SetLength(math.Max(0, length1) + math.Max(0, length2))
+			e.SetLength(sumLengths(length1, length2))
 		}
 
 		// We attribute a support to the new branch only if it is not a tip branch
@@ -567,6 +567,19 @@ func (t *Tree) ConnectNodes(parent *Node, child *Node) *Edge {
 	parent.addChild(child, newedge)
 	child.addChild(parent, newedge)
 	return newedge
+}
+
+// Length of the branch that replaces two branches in series:
+// an absent length (NIL_LENGTH) counts for nothing, any other
+// length (zero and negative ones included) is added as it is.
+func sumLengths(l1, l2 float64) float64 {
+	if l1 == NIL_LENGTH {
+		return l2
+	}
+	if l2 == NIL_LENGTH {
+		return l1
+	}
+	return l1 + l2
 }
 
 // This function takes the first node having 3 neighbors
@@ -1340,7 +1353,7 @@ func (t *Tree) removeSingleNodesRecur(current, previous *Node, e *Edge) error {
 				}
 				previous.addChild(child, child.br[idx])
 				if child.br[idx].Length() != NIL_LENGTH || length != NIL_LENGTH {
-					child.br[idx].SetLength(math.Max(0, child.br[idx].Length()) + math.Max(0, length))
+					child.br[idx].SetLength(sumLengths(child.br[idx].Length(), length))
 				}
 			}
 		}
@@ -1488,7 +1501,7 @@ func (t *Tree) UnRoot() {
 	}
 
 	if e1.Length() != NIL_LENGTH || e2.Length() != NIL_LENGTH {
-		e3.SetLength(math.Max(0, e1.Length()) + math.Max(0, e2.Length()))
+		e3.SetLength(sumLengths(e1.Length(), e2.Length()))
 	}
 	if !n1.Tip() && !n2.Tip() && (e1.Support() != NIL_SUPPORT || e2.Support() != NIL_SUPPORT) {
 		e3.SetSupport(math.Max(math.Max(0, e1.Support()), math.Max(0, e2.Support())))
